@@ -14,8 +14,11 @@ H = 0.5
 SCHEMES = {'lie_splitting': 1, 'strang_splitting': 2, 'yoshida_splitting': 4, 'kahan_li_splitting': 6}
 
 
-def components(sc, d, homogeneous, matrix_form=False):
-    """typed single-site / two-site components of a nearest-neighbour operator"""
+def components(sc, d, homogeneous, matrix_form=False, shared=False):
+    """typed single-site / two-site components of a nearest-neighbour operator; shared: lists whose entries are one and the same array object ([S] * d)"""
+    if shared:
+        S0, L0, I0, M0, ns, rs = components(sc, d, True, matrix_form)
+        return [S0] * d, [L0] * d, [I0] * d, [M0] * d, ns, rs
     if homogeneous:
         n, r = sc.atom('n'), sc.atom('r')
         ns, rs = [n] * d, [r] * d
@@ -121,21 +124,25 @@ def check(repo, tier):
     n_contr = 0
     for scheme, want_order in SCHEMES.items():
         entry = f'{ODE}.{scheme}'
-        for d, hom, nz in itertools.product(orders, (False, True), (0, 1, 2)):
+        for d, hom, nz in itertools.product(orders, (False, True, 'shared'), (0, 1, 2)):
+            shared = hom == 'shared'
+            if shared and not (nz == 0 and (d == 3 or tier == 'thorough')):
+                continue
+            hom = bool(hom) and not shared
             if tier == 'quick' and hom and d > 3:
                 continue
             if tier == 'quick' and nz == 1 and d != 3:
                 continue
-            for mform in ((False, True) if (d == 3 and nz == 0) else (False,)):
-                scen = f'{scheme}(chain length={d}, {"homogeneous" if hom else "site-dependent"}{", matrix-form couplings" if mform else ""}, normalize={nz})'
+            for mform in ((False, True) if (d == 3 and nz == 0 and not shared) else (False,)):
+                scen = f'{scheme}(chain length={d}, {"homogeneous" if hom else ("lists of one shared array per component" if shared else "site-dependent")}{", matrix-form couplings" if mform else ""}, normalize={nz})'
 
                 def body(sc):
-                    S, L, I, M, ns, rs = components(sc, d, hom, mform)
+                    S, L, I, M, ns, rs = components(sc, d, hom, mform, shared)
                     xdt = 'real' if nz == 1 else 'complex'        # a real initial state under complex components must become complex
-                    x = sc.tt('x', d, 'vec', row=[ns[i] for i in range(d)], dtype=xdt) if not hom else sc.tt('x', d, 'vec', row=[ns[0]] * d, dtype=xdt)
+                    x = sc.tt('x', d, 'vec', row=[ns[i] for i in range(d)], dtype=xdt) if not (hom or shared) else sc.tt('x', d, 'vec', row=[ns[0]] * d, dtype=xdt)
                     # the state lives in the site spaces of the components
                     for k, c in enumerate(x._attrs['cores']):
-                        c.legs[1] = (mode_leg('s' if hom else k, c.shape[1], +1, 'x'),)
+                        c.legs[1] = (mode_leg('s' if (hom or shared) else k, c.shape[1], +1, 'x'),)
                     sc.inputs = (x, S, L, I, M)
                     sc.old = list(x._attrs['cores'])
                     return sc.call(entry, S, L, I, M, x, H, 2, threshold=0, max_rank=sc.atom('rho', free=True), normalize=nz)
@@ -279,17 +286,17 @@ def check(repo, tier):
                             badg.append(f'a two-site generator consists of {[q[:3] for q in parts]} instead of kron(S_i, I_(i+1)) + sum_k L_i^k (x) M_(i+1)^k')
                             continue
                         a_, b_ = single[0][1], single[0][2]
-                        if not (a_ and b_ and a_[0] == 'S' and b_[0] == 'I' and (hom or b_[1] == a_[1] + 1)):
+                        if not (a_ and b_ and a_[0] == 'S' and b_[0] == 'I' and (hom or shared or b_[1] == a_[1] + 1)):
                             badg.append(f'the single-site part of a generator is kron({a_}, {b_}) instead of kron(S_i, I_(i+1))')
                         for cp in coupling:
                             ops = cp[2] if cp[0] == 'einsum' else (cp[1], cp[2])
-                            if not (ops[0] and ops[1] and ops[0][0] == 'L' and ops[1][0] == 'M' and (hom or ops[1][1] == ops[0][1] + 1) and (hom or (a_ and ops[0][1] == a_[1]))):
+                            if not (ops[0] and ops[1] and ops[0][0] == 'L' and ops[1][0] == 'M' and (hom or shared or ops[1][1] == ops[0][1] + 1) and (hom or shared or (a_ and ops[0][1] == a_[1]))):
                                 badg.append(f'the coupling part of a generator combines {ops} instead of (L_i, M_(i+1))')
                             if cp[0] == 'kron' and len(cp) == 5 and (cp[3] is not None or cp[4] is not None) and cp[3] is not cp[4] and cp[3] != cp[4]:
                                 badg.append(f'the coupling part pairs slice {cp[3]} of L with slice {cp[4]} of M')
                         rows = [(l.resolve().key, l.resolve().var) for l in K.legs[0]]
                         cols = [(l.resolve().key, l.resolve().var) for l in K.legs[1]]
-                        if not hom and a_:
+                        if not (hom or shared) and a_:
                             i = a_[1]
                             if rows != [(i, +1), (i + 1, +1)] or cols != [(i, -1), (i + 1, -1)]:
                                 badg.append(f'the generator of bond {i} has row indices {K.legs[0]} / column indices {K.legs[1]} instead of (site {i}, site {i + 1}) rows and columns')
